@@ -103,6 +103,9 @@ def cases(tier, seed):
     for c in _lib_cases(random.Random(4242 + seed), 150 if tier == "quick" else 1500):
         i += 1
         yield dict(c, id=i)
+    for c in _v2loops_cases():
+        i += 1
+        yield dict(c, id=i)
 
 
 # ----------------------------------------------------------------------------- the library's own LLM-driven output rail
@@ -205,7 +208,99 @@ def run_lib(case):
     return dict(base, verdict="held", observed=obs)
 
 
+# ----------------------------------------------------------------------------- Colang 2: two responders in different interaction loops
+V2LOOPS_CO = '''
+import core
+import guardrails
+
+flow main
+  activate handler a
+  activate handler b
+
+flow handler a
+  user said something
+  $t = await GenAction(name="a")
+  bot say $t
+
+%sflow handler b
+  match UtteranceUserAction.Finished()
+  $t = await GenAction(name="b")
+  bot say $t
+
+flow output rails $output_text
+  $ok = await CheckAction(text=$output_text)
+  if not $ok
+    bot say "REFUSED"
+    abort
+'''
+
+
+def _v2loops_cases():
+    for other_loop in (True, False):
+        for va in ("ok", "block"):
+            for vb in ("ok", "block"):
+                for turns in (1, 2):
+                    yield {"fam": "v2loops", "other_loop": other_loop, "va": va, "vb": vb, "turns": turns, "cid": "w%d%s%s%d" % (int(other_loop), va[0], vb[0], turns)}
+
+
+def run_v2loops(case):
+    """Two activated flows answer the same user message with a generated text each - in two interaction loops, or in one
+    (where the action conflict lets only one of them speak). Every generated text that comes back must have been shown to the
+    output rail and accepted by it."""
+    import asyncio
+
+    from .railsconv import rails
+
+    L = rails.load()
+    checked, state = [], {"t": 0}
+    verdict = {"a": case["va"], "b": case["vb"]}
+
+    async def gen(name: str):
+        return "BOT-%s-%d-%s" % (case["cid"], state["t"], name)
+
+    async def check(text: str):
+        checked.append(text)
+        return not ("BOT-" in text and verdict[text[-1]] == "block")
+
+    co = V2LOOPS_CO % ('@loop("other")\n' if case["other_loop"] else "")
+    base = {"key": repr(sorted(case.items())), "nontrivial": True, "ver": "v2", "fam": "v2loops", "other_loop": case["other_loop"],
+            "sample": {"family": "two responders", "separate_interaction_loops": case["other_loop"], "verdicts": verdict, "turns": case["turns"]}}
+    obs = {"v2loops_cases": 1, "v2loops_texts_returned": 0, "v2loops_rail_calls": 0}
+    try:
+        cfg = L["RailsConfig"].from_content(co, 'colang_version: "2.x"\nmodels: []\n')
+        app = L["LLMRails"](cfg, llm=L["RecLLM"](script=lambda p_: "", log=rails.Log()))
+        app.runtime.register_action(gen, "GenAction")
+        app.runtime.register_action(check, "CheckAction")
+    except Exception as e:
+        return dict(base, verdict="inconclusive", reason="app-build-failed:%s" % type(e).__name__, detail=str(e)[:300], nontrivial=False)
+    st = {}
+    for t in range(case["turns"]):
+        state["t"] = t
+        del checked[:]
+        try:
+            res = asyncio.run(asyncio.wait_for(app.generate_async(messages=[{"role": "user", "content": "hello %d" % t}], state=st), 60))
+        except Exception as e:
+            return dict(base, verdict="violated", what="generate-raised-without-fault", observed=obs, witness={"turn": t, "exception": "%s: %s" % (type(e).__name__, str(e)[:300])})
+        st = res.state
+        texts = [ln for m_ in (res.response or []) if isinstance(m_, dict) for ln in str(m_.get("content") or "").split("\n") if "BOT-" in ln]
+        obs["v2loops_texts_returned"] += len(texts)
+        obs["v2loops_rail_calls"] += len(checked)
+        w = {"turn": t, "returned": texts, "shown_to_the_output_rail": list(checked), "verdicts": verdict, "separate_interaction_loops": case["other_loop"], "config_colang": co}
+        for tx in texts:
+            if tx not in checked:
+                return dict(base, verdict="violated", what="llm-text-returned-without-output-rails", observed=obs, witness=w)
+            if verdict[tx[-1]] == "block":
+                return dict(base, verdict="violated", what="rejected-llm-text-returned", observed=obs, witness=w)
+        if not texts and "ok" in verdict.values() and not case["other_loop"]:
+            pass  # one loop: the conflict winner may be the blocked one
+    if obs["v2loops_rail_calls"] == 0:
+        return dict(base, verdict="inconclusive", reason="monitor-not-reached", observed=obs, nontrivial=False)
+    return dict(base, verdict="held", observed=obs)
+
+
 def run_case(case):
+    if case.get("fam") == "v2loops":
+        return run_v2loops(case)
     if case.get("fam") == "lib":
         return run_lib(case)
     r = run_case_for(TAG, case)
@@ -217,6 +312,9 @@ def run_case(case):
 
 def classify(r):
     w = r.get("what")
+    if r.get("fam") == "v2loops" and r.get("other_loop") and w == "llm-text-returned-without-output-rails":
+        # structural: the configuration has two responders in different interaction loops
+        return "v2-output-rails-flag-shared-between-interaction-loops"
     if r.get("ver") == "v2" and r.get("after_block") and w in ("output-rail-calls-differ", "reply-differs-from-model", "rejected-llm-text-returned"):
         return "v2-output-flag-stuck-after-abort"
     return "%s:%s" % (r.get("ver"), w)
